@@ -422,7 +422,7 @@ def run(rep):
     touched = [(nm, d_) for nm, d_ in altered_data if pq.call_named(d_, "setitem") or d_[0] in ('add', 'sub', 'mul', 'div', 'where', 'neg') or
                (d_[0] == 'call' and d_[1] in ('clip', 'maximum', 'minimum', 'abs', 'round', 'around', 'nan_to_num', 'where'))]
     rep.check(not touched, "R03.b", "stat/metrics.py", "crps", "table and decomposition are returned as the kernel computed them (no later store or arithmetic)",
-              f"{touched[0][0]} receives {show(touched[0][1])[:120]}" if touched else "", line=pf.lineno)
+              f"{touched[0][0]} receives {show(touched[0][1])[:120]}" if touched else "", line=pf.lineno, firm=True)
     if labels_tab is None or labels_dec is None:
         rep.undecided("R03.b", "stat/metrics.py", "crps", "labels of the table / decomposition", "label lists not recognised on the evaluated paths", line=pf.lineno)
         return EXPLANATION
@@ -501,9 +501,9 @@ def run(rep):
         if bad:
             okimp, dimp = False, f"a row with a missing observation is kept when {dict(bad[0])}"
     rep.check(not transposed, "R03.e", "stat/metrics.py", "__check_ensemble_data", "forecasts stay along axis 0 of the ensemble (no transposition on any path)",
-              f"{len(transposed)} returning path(s) transpose the ensemble: a square ensemble (as many members as forecasts) satisfies any shape test used to decide it", line=ck.lineno)
+              f"{len(transposed)} returning path(s) transpose the ensemble: a square ensemble (as many members as forecasts) satisfies any shape test used to decide it", line=ck.lineno, firm=True)
     rep.check(not layout_bad, "R03.e", "stat/metrics.py", "__check_ensemble_data", "the ensemble reaches the kernel as a fresh C-ordered array on every path (row selection copies)",
-              f"{len(layout_bad)} returning path(s) hand the converted input on with the caller's memory layout: a transposed / Fortran-ordered ensemble is rejected by the shim", line=ck.lineno)
+              f"{len(layout_bad)} returning path(s) hand the converted input on with the caller's memory layout: a transposed / Fortran-ordered ensemble is rejected by the shim", line=ck.lineno, firm=True)
     if und:
         rep.undecided("R03.e", "stat/metrics.py", "__check_ensemble_data", "obs and ens are filtered by the same mask", und, line=ck.lineno)
     else:
